@@ -224,4 +224,166 @@ theorem sorted_scaleKnots (c : Rat) (ks : Knots) (h : Sorted ks) : Sorted (scale
     | cons b l =>
       exact ⟨h.1, ih h.2⟩
 
+/-! ### decoded results -/
+
+theorem resultKnots_eq_scale (v : SVar) (neg : Bool) :
+    v.resultKnots neg = scaleKnots (sgn neg * v.nominal) v.knots := by
+  unfold SVar.resultKnots SVar.signedResults SVar.results SVar.knots
+  rw [List.map_map, ← zip_map_scale]
+  congr 1
+  apply List.map_congr_left
+  intro x _
+  simp [mul_assoc]
+
+theorem sgn_mul_self (neg : Bool) : sgn neg * sgn neg = 1 := by cases neg <;> simp [sgn]
+theorem sgn_ne_zero (neg : Bool) : sgn neg ≠ 0 := by cases neg <;> simp [sgn]
+
+theorem knots_times (v : SVar) (hlen : v.times.length = v.xs.length) :
+    v.knots.map (·.1) = v.times := by
+  unfold SVar.knots
+  rw [List.map_fst_zip]
+  omega
+
+theorem resultKnots_times (v : SVar) (neg : Bool) (hlen : v.times.length = v.xs.length) :
+    (v.resultKnots neg).map (·.1) = v.times := by
+  rw [resultKnots_eq_scale, scaleKnots_times, knots_times v hlen]
+
+theorem sorted_resultKnots (v : SVar) (neg : Bool) (hs : Sorted v.knots) :
+    Sorted (v.resultKnots neg) := by
+  rw [resultKnots_eq_scale]; exact sorted_scaleKnots _ _ hs
+
+theorem firstTime_eq (ks : Knots) : firstTime ks = ((ks.map (·.1)).head?).getD 0 := by
+  cases ks <;> simp [firstTime]
+
+theorem lastTime_eq (ks : Knots) : lastTime ks = ((ks.map (·.1)).getLast?).getD 0 := by
+  simp [lastTime, List.getLast?_map]
+
+theorem signedHist_eq_scale (neg : Bool) (h : Knots) : signedHist neg h = scaleKnots (sgn neg) h := by
+  cases neg
+  · simp [signedHist, sgn, scaleKnots]
+  · simp [signedHist, sgn, negKnots_eq_scale]
+
+/-! ### `der_at`: locating the interval -/
+
+theorem findSeg_cons_skip (a b : Rat) (rest : List Rat) (t : Rat) (h : ¬ (a < t ∧ t ≤ b)) :
+    findSeg (a :: b :: rest) t = findSeg (b :: rest) t := by
+  rw [findSeg]; simp only [h, if_false]
+
+theorem findSeg_spec (pre post : List Rat) (a b t : Rat)
+    (hs : (pre ++ a :: b :: post).Pairwise (· < ·)) (h1 : a < t) (h2 : t ≤ b) :
+    findSeg (pre ++ a :: b :: post) t = some (a, b) := by
+  induction pre with
+  | nil => simp [findSeg, h1, h2]
+  | cons p pre ih =>
+    have hs' : (pre ++ a :: b :: post).Pairwise (· < ·) := (List.pairwise_cons.1 hs).2
+    have hpa : ∀ x ∈ pre ++ a :: b :: post, p < x := (List.pairwise_cons.1 hs).1
+    cases pre with
+    | nil =>
+      have : ¬ (p < t ∧ t ≤ a) := fun h => absurd h.2 (not_le.2 h1)
+      simp only [List.cons_append, List.nil_append]
+      rw [findSeg_cons_skip _ _ _ _ this]
+      exact ih hs'
+    | cons q pre =>
+      have hqa : q < a := by
+        have := (List.pairwise_cons.1 hs').1 a (by simp)
+        exact this
+      have : ¬ (p < t ∧ t ≤ q) := fun h => absurd (lt_of_le_of_lt h.2 hqa) (not_lt.2 (le_of_lt h1))
+      simp only [List.cons_append]
+      rw [findSeg_cons_skip _ _ _ _ this]
+      exact ih hs'
+
+theorem findSeg_none_of_le_head (h0 : Rat) (rest : List Rat) (t : Rat)
+    (hs : (h0 :: rest).Pairwise (· < ·)) (h : t ≤ h0) : findSeg (h0 :: rest) t = none := by
+  induction rest generalizing h0 with
+  | nil => simp [findSeg]
+  | cons b rest ih =>
+    have hb : h0 < b := (List.pairwise_cons.1 hs).1 b (by simp)
+    have : ¬ (h0 < t ∧ t ≤ b) := fun hh => absurd hh.1 (not_lt.2 h)
+    rw [findSeg_cons_skip _ _ _ _ this]
+    exact ih b (List.pairwise_cons.1 hs).2 (le_trans h (le_of_lt hb))
+
+theorem findSeg_none_of_last_lt (l : List Rat) (t : Rat) (h : ∀ x ∈ l, x < t) :
+    findSeg l t = none := by
+  induction l with
+  | nil => simp [findSeg]
+  | cons a l ih =>
+    cases l with
+    | nil => simp [findSeg]
+    | cons b l =>
+      have : ¬ (a < t ∧ t ≤ b) := fun hh => absurd hh.2 (not_le.2 (h b (by simp)))
+      rw [findSeg_cons_skip _ _ _ _ this]
+      exact ih (fun x hx => h x (by simp [hx]))
+
+theorem sorted_pairwise (ks : Knots) (hs : Sorted ks) : (ks.map (·.1)).Pairwise (· < ·) := by
+  induction ks with
+  | nil => simp
+  | cons a l ih =>
+    rw [List.map_cons, List.pairwise_cons]
+    refine ⟨?_, ih (Sorted.tail hs)⟩
+    intro x hx
+    obtain ⟨k, hk, rfl⟩ := List.mem_map.1 hx
+    exact Sorted.head_lt hs k hk
+
+/-! ### `states_in` helpers -/
+
+theorem state_eq_resultKnots (v : SVar) (neg : Bool) :
+    v.times.zip (v.xs.map (fun x => x * v.nominal * sgn neg)) = v.resultKnots neg := by
+  unfold SVar.resultKnots SVar.signedResults SVar.results
+  rw [List.map_map]
+  congr 1
+  apply List.map_congr_left
+  intro x _
+  simp only [Function.comp]
+  ring
+
+theorem endKnot_spec (p : Prob) (name : String) (inner : Knots) (t : Rat) (x : Knots)
+    (h : endKnot p name inner t = some x) : EndOK p name inner t x := by
+  unfold endKnot at h
+  by_cases hh : hasTime inner t = true
+  · simp only [hh, if_true, Option.some.injEq] at h
+    exact Or.inl ⟨hh, h.symm⟩
+  · have hf : hasTime inner t = false := by simpa using hh
+    rw [hf] at h
+    simp only [Bool.false_eq_true, if_false] at h
+    right
+    refine ⟨hf, ?_⟩
+    unfold endPoint at h
+    cases hs : stateAt p name t false true with
+    | num q =>
+      rw [hs] at h
+      simp only [Res.toRat?, Option.map_some, Option.some.injEq] at h
+      exact ⟨q, rfl, h.symm⟩
+    | nan => rw [hs] at h; simp [Res.toRat?] at h
+    | raise => rw [hs] at h; simp [Res.toRat?] at h
+
+theorem mem_inWindow (a b : Rat) (ks : Knots) (k : Rat × Rat) :
+    k ∈ inWindow a b ks ↔ k ∈ ks ∧ a ≤ k.1 ∧ k.1 ≤ b := by
+  simp [inWindow, List.mem_filter]
+
+theorem signedHist_dropLast_mem (neg : Bool) (h : Knots) (k : Rat × Rat)
+    (hk : k ∈ (if neg then negKnots h.dropLast else h.dropLast)) : k ∈ signedHist neg h := by
+  cases neg
+  · simp only [Bool.false_eq_true, if_false] at hk
+    simpa [signedHist] using List.dropLast_subset _ hk
+  · simp only [if_true] at hk
+    simp only [signedHist, if_true]
+    unfold negKnots at hk ⊢
+    obtain ⟨k', hk', rfl⟩ := List.mem_map.1 hk
+    exact List.mem_map.2 ⟨k', List.dropLast_subset _ hk', rfl⟩
+
+theorem signedHist_dropLast_time (neg : Bool) (h : Knots) (k : Rat × Rat)
+    (hk : k ∈ (if neg then negKnots h.dropLast else h.dropLast)) : ∃ k' ∈ h.dropLast, k'.1 = k.1 := by
+  cases neg
+  · simp only [Bool.false_eq_true, if_false] at hk
+    exact ⟨k, hk, rfl⟩
+  · simp only [if_true] at hk
+    unfold negKnots at hk
+    obtain ⟨k', hk', rfl⟩ := List.mem_map.1 hk
+    exact ⟨k', hk', rfl⟩
+
+theorem results_getD (v : SVar) (i : Nat) : v.results.getD i 0 = v.nominal * v.xs.getD i 0 := by
+  unfold SVar.results
+  simp only [List.getD_eq_getElem?_getD, List.getElem?_map]
+  cases v.xs[i]? <;> simp
+
 end RtcVerif.C15
